@@ -22,6 +22,8 @@ import (
 	"sync/atomic"
 	"time"
 
+	"github.com/spf13/afero"
+
 	"github.com/ARM-software/golang-utils/utils/commonerrors"
 	"github.com/ARM-software/golang-utils/utils/filesystem"
 
@@ -29,6 +31,19 @@ import (
 )
 
 func init() { subs["locktime"] = lockTimeMain }
+
+// statFailFs makes Stat/Lstat fail with ENOENT for names with the given suffix (listing still shows them)
+type statFailFs struct {
+	afero.Fs
+	failSuffix string
+}
+
+func (s *statFailFs) Stat(name string) (os.FileInfo, error) {
+	if s.failSuffix != "" && strings.HasSuffix(name, s.failSuffix) {
+		return nil, &os.PathError{Op: "stat", Path: name, Err: os.ErrNotExist}
+	}
+	return s.Fs.Stat(name)
+}
 
 type fsEnv struct {
 	name string
@@ -189,6 +204,41 @@ func lockTimeMain(args []string) {
 		}
 		if len(lines) > 0 {
 			rep.Sample(map[string]string{"line": lines[len(lines)/2], "model": ans[len(lines)/2]})
+		}
+	}
+
+	// ---- a listed heart-beat file that cannot be stat'ed (it vanished between Ls and Stat): not stale --
+	{
+		base := afero.NewMemMapFs()
+		wrapped := &statFailFs{Fs: base}
+		vfs := filesystem.NewVirtualFileSystem(wrapped, filesystem.InMemoryFS, filesystem.IdentityPathConverterFunc).(*filesystem.VFS)
+		_ = base.MkdirAll("/locks", 0o755)
+		for _, d := range []time.Duration{0, 60 * time.Millisecond, 150 * time.Millisecond, time.Second} {
+			id := fmt.Sprintf("u%d", atomic.AddInt64(&lockSeq, 1))
+			dir := filepath.Join("/locks", "lockfile-"+id)
+			f1 := filepath.Join(dir, id+".lock")
+			_ = base.MkdirAll(dir, 0o755)
+			_ = afero.WriteFile(base, f1, []byte("alive"), 0o644)
+			t1 := time.Now().Add(-d)
+			_ = base.Chtimes(f1, t1, t1)
+			_ = base.Chtimes(dir, t1, t1)
+			lk := filesystem.NewRemoteLockFile(vfs, id, "/locks")
+			wrapped.failSuffix = ".lock"
+			got := lk.IsStale()
+			wrapped.failSuffix = ""
+			canon := fmt.Sprintf("mem heart-beat file listed but not stat-able, stamped %v ago", d)
+			rep.Eval(canon, true)
+			rep.Hist("probe:unstatable-file")
+			if got {
+				rep.Fail(hx.Failure{Kind: "impl-violates-property", Key: "unstatable-heartbeat-reported-stale", Case: canon,
+					Expected: "not stale (the holder may be replacing its heart-beat file)", Observed: "stale"})
+			}
+			if drv != nil {
+				a, _ := drv.Ask1(fmt.Sprintf("stale %d %d -", time.Now().UnixNano(), t1.UnixNano()))
+				if a != "false" {
+					rep.Fail(hx.Failure{Kind: "model-impl-divergence", Key: "isstale:unstatable", Case: canon, Expected: "model: " + a, Observed: fmt.Sprint("impl: ", got)})
+				}
+			}
 		}
 	}
 
